@@ -235,9 +235,11 @@ func (s *Service) Open() error {
 }
 
 func (s *Service) Close() error {
+	// Closing the topics waits until their handlers have handled what they have queued. A publish handler
+	// does so through Collect, which takes the read lock: the lock must not be held meanwhile.
+	s.topics.Close()
 	s.mu.Lock()
 	defer s.mu.Unlock()
-	s.topics.Close()
 	return s.APIServer.Close()
 }
 
